@@ -72,6 +72,56 @@ func finiteLang(re *syntax.Regexp) ([]string, bool) {
 	return nil, false
 }
 
+// patternOf resolves a *regexp.Regexp value to the constant it was compiled from:
+// a MustCompile call in the function, or a package-level variable that the
+// package initialiser sets to such a call (and nothing else stores to).
+func patternOf(v ssa.Value) (string, bool) {
+	fromCall := func(x ssa.Value) (string, bool) {
+		cl, ok := x.(*ssa.Call)
+		if !ok || calleeName(cl.Common()) != "regexp.MustCompile" {
+			return "", false
+		}
+		k, isK := cl.Common().Args[0].(*ssa.Const)
+		if !isK || k.Value == nil || k.Value.Kind() != constant.String {
+			return "", false
+		}
+		return constant.StringVal(k.Value), true
+	}
+	if p, ok := fromCall(v); ok {
+		return p, true
+	}
+	ld, ok := v.(*ssa.UnOp)
+	if !ok || ld.Op != token.MUL {
+		return "", false
+	}
+	g, ok := ld.X.(*ssa.Global)
+	if !ok || g.Pkg == nil {
+		return "", false
+	}
+	pat, n := "", 0
+	for _, m := range g.Pkg.Members {
+		f, isF := m.(*ssa.Function)
+		if !isF {
+			continue
+		}
+		for _, fn := range withClosures(f) {
+			for _, b := range fn.Blocks {
+				for _, in := range b.Instrs {
+					if st, isSt := in.(*ssa.Store); isSt && st.Addr == ssa.Value(g) {
+						n++
+						if p, ok := fromCall(st.Val); ok {
+							pat = p
+						} else {
+							return "", false
+						}
+					}
+				}
+			}
+		}
+	}
+	return pat, n == 1
+}
+
 func findCapture(re *syntax.Regexp, n int) *syntax.Regexp {
 	if re.Op == syntax.OpCapture && re.Cap == n {
 		return re
@@ -91,9 +141,9 @@ func findCapture(re *syntax.Regexp, n int) *syntax.Regexp {
 // declared values of that enumeration.
 func checkC38(c *Ctx, r *Report) {
 	const pkg = "lib/dockerregistry"
-	r.Explain = "The structural part of the registry-path parser, decided from the constant patterns in lib/dockerregistry (parsed with regexp/syntax, never run): (R1) every pattern handed to regexp.MustCompile by the parser (ParsePath, the Get* extractors named by the property, and their callees in the package) is a constant that parses; (R2) for every FindStringSubmatch on such a pattern, the length guard len(m) < K and every constant index m[i] agree with the number of capture groups (1 <= K <= groups+1, i <= groups; a larger K rejects every path, a larger i panics); (R3) a capture converted to PathSubType has a finite language and every word of it is a declared PathSubType constant, so classification can only return a declared subtype."
+	r.Explain = "The structural part of the registry-path parser, decided from the constant patterns in lib/dockerregistry (parsed with regexp/syntax, never run): (R1) every regular expression used by the parser (ParsePath, the Get* extractors named by the property, and their callees in the package) is compiled (locally or in a package-level variable assigned once) from a constant that parses; (R2) for every FindStringSubmatch on such a pattern, the length guard len(m) < K and every constant index m[i] agree with the number of capture groups (1 <= K <= groups+1, i <= groups; a larger K rejects every path, a larger i panics); (R3) a capture converted to PathSubType has a finite language and every word of it is a declared PathSubType constant, so classification can only return a declared subtype."
 	r.NotDecided = "That the patterns accept exactly the paths docker/distribution builds and that the captured text equals the component that was built: there is no path builder in the repository to compare with, and inclusion between regular languages is not computed. Which of several matching classifiers wins in ParsePath is not decided."
-	r1 := r.Rule("R1", "E-CODEC", "every regexp.MustCompile argument in the path parser (ParsePath, the Get* extractors and their callees in lib/dockerregistry) is a constant that parses (Perl syntax; MustCompile panics on every call otherwise)", 11)
+	r1 := r.Rule("R1", "E-CODEC", "every regular expression used in the path parser (ParsePath, the Get* extractors and their callees in lib/dockerregistry) is compiled, in the function or in a package-level variable, from a constant that parses (Perl syntax; MustCompile panics on every call otherwise)", 11)
 	r2 := r.Rule("R2", "E-CODEC", "the length guard and the constant indices on every FindStringSubmatch result agree with the pattern's capture-group count", 8)
 	r3 := r.Rule("R3", "E-CODEC", "a capture converted to PathSubType ranges over declared PathSubType constants only", 2)
 
@@ -149,17 +199,15 @@ func checkC38(c *Ctx, r *Report) {
 			continue
 		}
 		for _, cs := range callsIn(fn) {
-			if cs.Callee != "regexp.MustCompile" && cs.Callee != "regexp.Compile" {
+			if !strings.HasPrefix(cs.Callee, "(*regexp.Regexp).") {
 				continue
 			}
 			r.Analysed(fn)
-			arg := cs.Instr.Common().Args[0]
-			k, isK := arg.(*ssa.Const)
-			if !isK || k.Value == nil || k.Value.Kind() != constant.String {
-				r.Undecided(r1, fn, "pattern", cs.Instr, "the pattern is not a constant")
+			pat, okPat := patternOf(cs.Instr.Common().Args[0])
+			if !okPat {
+				r.Undecided(r1, fn, "pattern of "+cs.Callee, cs.Instr, "the receiver is not a regexp compiled from a constant (in the function or in a package-level variable)")
 				continue
 			}
-			pat := constant.StringVal(k.Value)
 			re, err := syntax.Parse(pat, syntax.Perl)
 			if err != nil {
 				r.Bad(r1, fn, "pattern "+pat, cs.Instr, "the pattern does not parse: "+err.Error())
@@ -167,18 +215,11 @@ func checkC38(c *Ctx, r *Report) {
 			}
 			r.OK(r1, fn, "pattern "+pat, cs.Instr, true, "constant; parses")
 			groups := re.MaxCap()
-			reVal := cs.Instr.Value()
-			if reVal == nil {
+			fs, isCall := cs.Instr.(*ssa.Call)
+			if !isCall || cs.Callee != "(*regexp.Regexp).FindStringSubmatch" {
 				continue
 			}
-			if cs.Callee == "regexp.Compile" {
-				continue // tuple result: not used in this package today; R1 still applies
-			}
-			for _, rf := range *reVal.Referrers() {
-				fs, ok := rf.(*ssa.Call)
-				if !ok || calleeName(fs.Common()) != "(*regexp.Regexp).FindStringSubmatch" || fs.Common().Args[0] != reVal {
-					continue
-				}
+			{
 				okAll := true
 				var facts []string
 				for _, mr := range *fs.Referrers() {
